@@ -306,7 +306,9 @@ def typing(ctx, rep, only):
     cp = prog.find_fn("crate::parser::comparable")
     ct = ev.summary(cp)
     gate = any(x.k == "if" and x.a[0].k == "call" and x.a[0].a[0].endswith("TestFunction::is_comparable") and x.a[2].k == "adt" and x.a[2].a[1] == "Err"
-               for x in subterms(ct))
+               for x in subterms(ct)) or \
+        any(x.k == "if" and x.a[0].k == "un" and x.a[0].a[0] == "Not" and x.a[0].a[1].k == "call" and x.a[0].a[1].a[0].endswith("TestFunction::is_comparable")
+            and x.a[1].k == "adt" and x.a[1].a[1] == "Err" for x in subterms(ct))
     rep.check(gate, "C07-R4", "typing|comparable-gate", prog.loc_of(cp), "non-comparable functions rejected in comparisons",
               "`comparable` accepts a function without consulting is_comparable(): match()/search() results could be compared")
     fa = prog.find_fn("crate::parser::filter_atom")
